@@ -69,11 +69,16 @@ def interleave(d, collide, steps, third=False, same=False):
     strs = collide == "format-str"
 
     def pre(x, y, sched):
+        if not (len(x) <= 2 and len(y) <= 2 and len(sched) == steps):
+            return False
         if strs:
-            for e in list(x) + list(y):
+            for e in x:
                 if len(e) > 1:
                     return False
-        return len(x) <= 2 and len(y) <= 2 and len(sched) == steps
+            for e in y:
+                if len(e) > 1:
+                    return False
+        return True
 
     def body(x, y, sched):
         if same:
